@@ -1,22 +1,123 @@
+// verifchk decides the claimed properties of /repo by static analysis of its current working tree.
 package main
 
 import (
+	"encoding/json"
+	"flag"
 	"fmt"
-	"golang.org/x/tools/go/packages"
-	"golang.org/x/tools/go/ssa"
-	"golang.org/x/tools/go/ssa/ssautil"
-	"golang.org/x/tools/go/callgraph/vta"
-	"golang.org/x/tools/go/callgraph/cha"
-	"golang.org/x/tools/go/types/typeutil"
-	"golang.org/x/tools/go/cfg"
+	"go/token"
+	"os"
+	"runtime/debug"
+	"strings"
+	"time"
+
+	"verif/checker/internal/core"
+	"verif/checker/internal/rules"
 )
 
-var _ = packages.Load
-var _ ssa.Value
-var _ = ssautil.AllFunctions
-var _ = vta.CallGraph
-var _ = cha.CallGraph
-var _ typeutil.Map
-var _ cfg.CFG
+func main() {
+	verif := flag.String("verif", "/verif", "verification directory")
+	repo := flag.String("repo", "/repo", "repository to analyse")
+	flag.Parse()
+	args := flag.Args()
+	if len(args) == 0 {
+		fmt.Println("usage: verifchk [-verif dir] [-repo dir] <ID>|list [--tier quick|thorough] [--replay file]")
+		os.Exit(2)
+	}
+	if args[0] == "list" {
+		for _, id := range rules.IDs() {
+			fmt.Println(id, rules.Get(id).Title)
+		}
+		return
+	}
+	if args[0] == "dump" && len(args) >= 3 {
+		p, err := core.Load(*repo, []string{args[1]}, false, nil)
+		if err != nil {
+			fmt.Println(err)
+			os.Exit(2)
+		}
+		for _, fn := range p.FuncsOfPkg(args[1]) {
+			if core.FuncName(fn) == args[2] || strings.HasPrefix(core.FuncName(fn), args[2]+"$") {
+				fn.WriteTo(os.Stdout)
+			}
+		}
+		return
+	}
+	id := args[0]
+	tier := os.Getenv("VERIF_TIER")
+	replay := ""
+	for i := 1; i < len(args); i++ {
+		switch strings.TrimLeft(args[i], "-") {
+		case "tier":
+			if i+1 < len(args) {
+				tier = args[i+1]
+				i++
+			}
+		case "replay":
+			if i+1 < len(args) {
+				replay = args[i+1]
+				i++
+			}
+		}
+	}
+	if tier != "thorough" {
+		tier = "quick"
+	}
+	r := rules.Get(id)
+	if r == nil {
+		fmt.Printf("no check registered for %s\n", id)
+		os.Exit(2)
+	}
+	start := time.Now()
+	whole := tier == "thorough"
+	p, err := core.Load(*repo, r.Pkgs, whole, nil)
+	c := core.NewCtx(id, tier, p)
+	c.Explain = r.Explain
+	c.Assume = append(c.Assume, r.Assume...)
+	if err != nil {
+		c.Undecided("load", "packages", token.NoPos, "cannot load/type-check the anchored packages: "+err.Error())
+		os.Exit(c.Finish(*verif, start, "other"))
+	}
+	func() {
+		defer func() {
+			if x := recover(); x != nil {
+				c.Undecided("checker-panic", id, token.NoPos, fmt.Sprintf("%v\n%s", x, debug.Stack()))
+			}
+		}()
+		r.Run(c)
+	}()
+	if replay != "" {
+		os.Exit(doReplay(c, replay))
+	}
+	os.Exit(c.Finish(*verif, start, "other"))
+}
 
-func main() { fmt.Println("ok") }
+// doReplay re-evaluates on the current tree the single obligation named in a replay file.
+func doReplay(c *core.Ctx, path string) int {
+	b, err := os.ReadFile(path)
+	if err != nil {
+		fmt.Println("cannot read replay file:", err)
+		return 2
+	}
+	var rp struct{ Rule, Construct string }
+	if err := json.Unmarshal(b, &rp); err != nil {
+		fmt.Println("bad replay file:", err)
+		return 2
+	}
+	found := false
+	code := 0
+	for _, o := range c.Obls {
+		if o.Rule == rp.Rule && o.Construct == rp.Construct {
+			found = true
+			fmt.Printf("%s: %s %s@%s: %s\n", o.Where, strings.ToUpper(string(o.Status)), o.Rule, o.Construct, o.Detail)
+			if o.Status != core.OK {
+				code = 1
+			}
+		}
+	}
+	if !found {
+		fmt.Printf("obligation %s@%s no longer exists on this tree\n", rp.Rule, rp.Construct)
+		return 1
+	}
+	return code
+}
